@@ -10,11 +10,11 @@ from . import domsink
 
 class Opts:
     def __init__(self, scripting=True, iframe_srcdoc=False, quirks="NoQuirks", exact_errors=False, drop_doctype=False,
-                 context=None, context_attrs=(), form=False, ctx_scripting=True, chunks=None, script_detach=False, detach_plan=None):
+                 context=None, context_attrs=(), form=False, ctx_scripting=True, chunks=None, script_detach=False, detach_plan=None, rcdom=False):
         self.scripting, self.iframe_srcdoc, self.quirks, self.exact_errors = scripting, iframe_srcdoc, quirks, exact_errors
         self.drop_doctype, self.context, self.context_attrs, self.form, self.chunks = drop_doctype, context, context_attrs, form, chunks
         self.ctx_scripting = ctx_scripting
-        self.script_detach, self.detach_plan = script_detach, detach_plan
+        self.script_detach, self.detach_plan, self.rcdom = script_detach, detach_plan, rcdom
 
 
 def qualname(ns, local):
@@ -28,12 +28,15 @@ def run(m, chars, opts):
     tbo = Struct("TreeBuilderOpts", [opts.exact_errors, opts.scripting, opts.iframe_srcdoc, opts.drop_doctype, mk("QuirksMode::" + opts.quirks)])
     sink = Struct("Sink", [])
     st = domsink.state(m)
+    if opts.rcdom:
+        from . import rcdomtee
+        rcdomtee.activate(m)
     init_state = none()
     if opts.context is not None:
         ns, local = opts.context
         attrs = VecM([Struct("Attribute", [qualname("", k), Tendril([ord(c) for c in v])]) for k, v in opts.context_attrs])
-        ctx = domsink.ts_create_element(m, [Ptr([sink], 0), qualname(ns, local), attrs], "create_element")
-        form = some(domsink.ts_create_element(m, [Ptr([sink], 0), qualname("http://www.w3.org/1999/xhtml", "form"), VecM([])], "create_element")) if opts.form else none()
+        ctx = MD.M["create_element"](m, [Ptr([sink], 0), qualname(ns, local), attrs], "create_element")
+        form = some(MD.M["create_element"](m, [Ptr([sink], 0), qualname("http://www.w3.org/1999/xhtml", "form"), VecM([])], "create_element")) if opts.form else none()
         st["context"] = ctx
         tb = m.call("TreeBuilder::new_for_fragment", [sink, ctx, form, tbo])
         init_state = some(m.call("TreeBuilder::tokenizer_state_for_context_elem", [Ptr([tb], 0), opts.ctx_scripting]))
